@@ -114,15 +114,35 @@ impl BlobWriter for FileBlobWriter {
     ) -> Result<(), Box<dyn Error + Send + Sync + 'static>> {
         // Create the directory if it doesn't exist
         if let Some(parent) = path.parent() {
+            #[cfg(feature = "verif")]
+            crate::verif::fs_effect("mkdir", parent, false);
             create_dir_all(parent)?;
+            #[cfg(feature = "verif")]
+            crate::verif::fs_effect("mkdir", parent, true);
         }
 
         // Write the data to a temporary file and then rename it to the target path
         let tmp_path = path.with_extension(".INCOMPLETE");
+        #[cfg(feature = "verif")]
+        crate::verif::fs_effect("create", &tmp_path, false);
         let mut file = File::create(&tmp_path)?;
+        #[cfg(feature = "verif")]
+        crate::verif::fs_effect("create", &tmp_path, true);
+        #[cfg(feature = "verif")]
+        crate::verif::fs_effect("write", &tmp_path, false);
         file.write_all(data)?;
+        #[cfg(feature = "verif")]
+        crate::verif::fs_effect("write", &tmp_path, true);
+        #[cfg(feature = "verif")]
+        crate::verif::fs_effect("sync", &tmp_path, false);
         file.sync_all()?;
+        #[cfg(feature = "verif")]
+        crate::verif::fs_effect("sync", &tmp_path, true);
+        #[cfg(feature = "verif")]
+        crate::verif::fs_effect("rename", path, false);
         std::fs::rename(tmp_path, path).map_err(|e| format!("Failed to rename file: {}", e))?;
+        #[cfg(feature = "verif")]
+        crate::verif::fs_effect("rename", path, true);
 
         Ok(())
     }
@@ -135,7 +155,11 @@ impl BlobWriter for FileBlobWriter {
     }
 
     fn delete(&self, path: &Path) -> Result<(), Box<dyn Error + Send + Sync + 'static>> {
+        #[cfg(feature = "verif")]
+        crate::verif::fs_effect("remove", path, false);
         std::fs::remove_file(path)?;
+        #[cfg(feature = "verif")]
+        crate::verif::fs_effect("remove", path, true);
         Ok(())
     }
 
